@@ -159,6 +159,7 @@ def run(F, rep, tier):
     from props import C16
     C16.reader_grammar(F, rep)
     C16.writer_grammar(F, rep)
+    C16.writer_domain_rule(F, rep)
     C16.toplevel_rule(F, rep)
     # positive control: the raw_size polynomial must change when a term is dropped
     full = emission.RawSize(F).poly()
